@@ -331,6 +331,7 @@ class Evaluator(object):
         self.steps = 0
         self.asserts = []  # AssertRec
         self.calls = []  # (caller key, callee path, span) of opaque calls
+        self._dec_ctx = None
         self.loop_intervals = True  # loop summaries carry interval invariants (needed to discharge asserts, not to compare effects)
         self.neutral_crates = set()  # crates whose opaque calls do not advance the world token (see C18)
         self.local_names = {}  # oid of a frame local -> (function def path, source variable name or None)
@@ -632,9 +633,12 @@ class Evaluator(object):
             raise Unsupported("pointer constant %r" % (info,))
         if "mem" in c:
             try:
+                self._dec_ctx = (st, {p_["at"]: p_ for p_ in c["mem"].get("ptrs", [])})
                 return self.decode_bytes(bytes.fromhex(c["mem"]["bytes"]), tyid)
             except Unsupported:
                 return OpaqueV(tyid, "const:" + c["mem"]["bytes"][:16])
+            finally:
+                self._dec_ctx = None
         if "slice" in c:
             b = bytes.fromhex(c["slice"]["bytes"])
             n = c.get("meta", len(b))
@@ -673,6 +677,30 @@ class Evaluator(object):
             return ArrV(n, ew, None, None, elems), off
         if k == "adt" and t["adt_kind"] == "struct" and len(t["variants"][0]["fields"]) == 1:
             return self._decode(b, t["variants"][0]["fields"][0]["ty"], off)
+        if k in ("ref", "ptr") and getattr(self, "_dec_ctx", None):
+            # a pointer stored inside a constant: the fact extractor recorded the allocation it points into
+            st, ptrs = self._dec_ctx
+            pinfo = ptrs.get(off)
+            if pinfo is None or "bytes" not in pinfo["to"]:
+                raise Unsupported("pointer constant without a known target")
+            tb = bytes.fromhex(pinfo["to"]["bytes"])
+            pt = self.tys[t["to"]]
+            saved = self._dec_ctx
+            self._dec_ctx = (st, {p_["at"]: p_ for p_ in pinfo["to"].get("ptrs", [])})
+            try:
+                if pt["k"] == "slice":
+                    n = int.from_bytes(b[off + 8:off + 16], "little")
+                    elems = {}
+                    o2 = pinfo["addend"]
+                    for i in range(n):
+                        elems[i], o2 = self._decode(tb, pt["elem"], o2)
+                    ew = self.scalar_width(self.strip_newtypes(pt["elem"]))
+                    oid = st.alloc(ArrV(n, ew, None, None, elems), "const")
+                    return Ref(oid, (), (0, n)), off + 16
+                v, _ = self._decode(tb, t["to"], pinfo["addend"])
+                return Ref(st.alloc(v, "const"), ()), off + 8
+            finally:
+                self._dec_ctx = saved
         # tuples and structs: field offsets and size come from the compiler's layout (the fact extractor records them)
         if t.get("offsets") is not None and t.get("size") is not None:
             ftys = t["elems"] if k == "tuple" else ([f["ty"] for f in t["variants"][0]["fields"]] if k == "adt" and t["adt_kind"] == "struct" else None)
